@@ -176,6 +176,15 @@ def _default_containers(col, rule="C12.R4"):
                 cn = A.dotted(n.value.func)
                 if cn and cn.split(".")[-1] in repo.classes and any(isinstance(t, ast.Name) and t.id in params for t in n.targets):
                     defaults.add(cn.split(".")[-1])
+            # `owner = K() if container is None else container`, `container or K()`: the same default, spelled as an expression
+            if isinstance(n, (ast.IfExp, ast.BoolOp)):
+                tested = {x.id for x in A.walk(n.test if isinstance(n, ast.IfExp) else n.values[0]) if isinstance(x, ast.Name)}
+                arms = [n.body, n.orelse] if isinstance(n, ast.IfExp) else n.values[1:]
+                for arm in arms:
+                    if isinstance(arm, ast.Call) and not arm.args and not arm.keywords and tested & params:
+                        cn = A.dotted(arm.func)
+                        if cn and cn.split(".")[-1] in repo.classes:
+                            defaults.add(cn.split(".")[-1])
     if not defaults:
         raise AnalysisError("Manager: no default container class found (ref/refattr/newenv) -- cannot decide")
     for cn in sorted(defaults):
